@@ -104,6 +104,9 @@ C09_Recorded(C, R) ==
             IN  /\ (Opp(l, r, C.events[i].dir) => closed >= 1 /\ open <= 1)
                 /\ (Same(l, r) => open = 0)
                 /\ (~Opp(l, r, C.events[i].dir) /\ l # 0 /\ r # 0 => open = 0)       \* wrong direction: nothing reported
+                \* an exact zero at a reported step end: reported from one of the two adjacent steps
+                /\ (k + 1 <= nb /\ r = 0 /\ Opp(l, R.gsign[i][k + 2], C.events[i].dir) =>
+                       Cardinality({ j \in 1..Len(R.t_events[i]) : R.t[k].r <= R.t_events[i][j].r /\ R.t_events[i][j].r <= R.t[k + 2].r }) >= 1)
 C10_Recorded(C, R) ==
     (IsSol(R) /\ R.status = "UserInterrupt") =>
       /\ Len(R.t) >= 1
